@@ -249,6 +249,40 @@ def gen_random(rng, depth):
     return table, hist
 
 
+def gen_traits(rng, depth):
+    """Focused: one partition with roomy capacity, tight limits on a proper,
+    non-empty subset of the traits, reservations that carry several traits (any
+    subset, so limited and unlimited traits meet in one list) and whose size is
+    a good fraction of a limit - the per-trait bookkeeping decides every request."""
+    traits = ['gpu', 'ssd', 'x86']
+    gib = 1048576
+    limited = rng.sample(traits, rng.choice([1, 1, 2]))
+    limits = {t: Q(pct(rng.choice([100, 200, 300])), _spell_size(rng, rng.choice([1, 2, 3]) * gib),
+                   _spell_size(rng, rng.choice([1, 2, 3]) * gib)) for t in limited}
+    table = [('c1', 'p1', Q(pct(900), _spell_size(rng, 9 * gib), _spell_size(rng, 9 * gib)), limits)]
+    ids = [('t1/a1', 'c1'), ('t1/a2', 'c1'), ('t1:sub/a3', 'c1'), ('t2/a1', 'c1')]
+    present, hist = set(), []
+    for _ in range(depth):
+        absent = [i for i in ids if i not in present]
+        x = rng.random()
+        if present and x < 0.1:
+            ident = rng.choice(sorted(present))
+            present.discard(ident)
+            hist.append(('Delete', ident, None))
+            continue
+        if absent and (x < 0.7 or not present):
+            ev, ident = 'Create', rng.choice(absent)
+        else:
+            ev, ident = 'Update', rng.choice(sorted(present))
+        tg = ev == 'Create' or rng.random() < 0.5
+        ts = sorted(rng.sample(traits, rng.choice([1, 2, 2, 3]))) if tg else []
+        q = Q(pct(rng.choice([100, 100, 200])), _spell_size(rng, rng.choice([1, 1, 2]) * gib),
+              _spell_size(rng, rng.choice([1, 1, 2]) * gib))
+        hist.append((ev, ident, dict(part='p1', tg=tg, traits=ts, **q)))
+        present.add(ident)
+    return table, hist
+
+
 def record(items):
     """items: [(name, src, table, history)] -> traces.  A history whose guards
     do not hold on the real directory (a Create that was rejected leaves the id
